@@ -1,0 +1,9 @@
+//go:build !verif
+// +build !verif
+
+package decoder
+
+// Verification hooks (build tag "verif"). With the tag off they are empty and inlined away.
+
+func verifDecoder(typeptr uintptr, dec Decoder, index int) {}
+func verifYield(point string)                              {}
